@@ -315,6 +315,9 @@ AfterDDEverythingPositional ==
 
 (* export: one case per finished history *)
 CaseRec == [cfg |-> cfg.id, env |-> env, calls |-> hist,
-            open |-> [k \in 1..Len(hist) |-> GreedyOpen(decl, greedy, hist[k].argv)]]
+            open |-> [k \in 1..Len(hist) |-> GreedyOpen(decl, greedy, hist[k].argv)],
+            \* expected outcome class of the same calls made through parse(vector<user_input>)
+            inputs |-> [k \in 1..Len(hist) |-> IF hist[k].res.oc = "parser_error" THEN "parser_error"
+                                               ELSE MeaningViaInputs(decl, allowed, greedy, env, hist[k].argv).oc]]
 Emit == (Terminal /\ Len(hist) = MaxParses) => PrintT("CASE " \o ToJson(CaseRec))
 =============================================================================
